@@ -101,7 +101,19 @@ def r1_wiring(P, rep, ctx):
     o = F(ctx, ov)
     g = o.g
     sc = ov.params[0]
-    loops = [n for n in g.nodes if n.kind == "for" and o.x(n.stmt.iter) == f"detect_field_overrides({sc}) - {sc}.__overrides__" and isinstance(n.stmt.target, ast.Name)]
+    def ctext(e):
+        """text of e with locals expanded and collection wrappers (set(..), sorted(..), .keys()) removed"""
+        return norm(MM.canon_collections(o.xe(e) if not isinstance(e, str) else MM.pat(e)))
+
+    def ctests(*wanted):
+        ws = {ctext(w) for w in wanted}
+        out = []
+        for t in g.nodes:
+            if t.kind == "test" and norm(MM.canon_collections(o.xe_at(t.idx, t.exprs[0]))) in ws:
+                out.append((t.idx, "T"))
+        return out
+
+    loops = [n for n in g.nodes if n.kind == "for" and ctext(n.stmt.iter) == f"detect_field_overrides({sc}) - {sc}.__overrides__" and isinstance(n.stmt.target, ast.Name)]
     ok = len(loops) == 1
     if ok:
         L = loops[0].idx
@@ -121,8 +133,8 @@ def r1_wiring(P, rep, ctx):
     rep.check(ok, "C13.R1", ov.qual, "an undeclared override that is not a subtype raises TypeError", ov.loc(), construct="override refusal", message="check_overrides does not raise TypeError for an undeclared override whose type is not a subtype of the inherited one")
     rep.check(len(loops) == 1, "C13.R1", ov.qual,
               "every actual, undeclared override is compared with the inherited hint", ov.loc(), construct="override iteration", message="check_overrides does not iterate over all actual overrides that are not declared with @override")
-    un1 = o.tests(f"{sc}.__overrides__ - set(cast(Any, {sc}._base_typehints).keys())", f"{sc}.__overrides__ - set(cast(Any, {sc}._base_typehints))")
-    un2 = o.tests(f"{sc}.__overrides__ - detect_field_overrides({sc})")
+    un1 = ctests(f"{sc}.__overrides__ - set(cast(Any, {sc}._base_typehints).keys())")
+    un2 = ctests(f"{sc}.__overrides__ - detect_field_overrides({sc})")
     rep.check(o.refuses(un1) and o.refuses(un2) and o.hit_before(g.exit, nodes=o.test_nodes(un1)) and o.hit_before(g.exit, nodes=o.test_nodes(un2)), "C13.R1", ov.qual, "declaring an override for a field the parents do not have raises", ov.loc(), construct="unreal override", message="a declared override without parent field is accepted")
     do = P.func(f"{C}.detect_field_overrides")
     d = F(ctx, do)
